@@ -396,6 +396,14 @@ func (f *Frame) pointEnv(st *State, b *ssa.BasicBlock, idx int, extra map[string
 			entryName = name[:len(name)-1]
 		}
 		v, isAddr, ok := f.lookupName(name, b, idx)
+		if !ok && f.spliced && f.parent != nil {
+			// a name the extracted helper does not know: the caller's variable, at the call site
+			pe := f.parent.pointEnv(e.st, f.parentBlock, f.parentIdx, nil)
+			pe.old, pe.cur = e.old, e.cur
+			if tv, found := pe.lookup(pe, name); found {
+				return tv, true
+			}
+		}
 
 		if !ok && entryName != "" {
 			for _, p := range f.fn.Params {
@@ -668,9 +676,11 @@ func (f *Frame) execBlock(b *ssa.BasicBlock, st *State, in map[*ssa.BasicBlock][
 				vals = append(vals, f.val(r, st))
 			}
 			// the values about to be returned are visible at "return" anchors as result / ret<k>
-			f.pendingRet = vals
-			f.atPoint("return", st, b, idx)
-			f.pendingRet = nil
+			if !f.spliced {
+				f.pendingRet = vals
+				f.atPoint("return", st, b, idx)
+				f.pendingRet = nil
+			}
 			rst := st
 			f.runDefers(rst)
 			if f.top {
@@ -716,7 +726,7 @@ func (f *Frame) flow(from, to *ssa.BasicBlock, st *State, in map[*ssa.BasicBlock
 	}
 	// "loop N exit" anchors: the edge on which the loop header leaves the loop (condition false / range exhausted;
 	// a break leaves from inside the body and does not pass here)
-	if f.top || f.prefix != "" {
+	if (f.top || f.prefix != "") && !f.spliced {
 		for _, li := range f.loops {
 			if li.head == from && !li.body[to] {
 				f.atPoint(fmt.Sprintf("loop %d exit", li.ord), st, from, len(from.Instrs)-1)
